@@ -11,27 +11,32 @@ open Aiorpcx.C01 (Id)
 
 variable {R : Type}
 
-/-- a delivery with the id its `send_result` is bound to made explicit -/
-abbrev BCall (R : Type) := Nat × Id × R
+/-- a delivery with the id its `send_result` is bound to made explicit:
+    (member, id, result, limit in force when the result is supplied) -/
+abbrev BCall (R : Type) := Nat × Id × R × Nat
 
-def runBound (max inc : Nat) (encLen : Id → R → Nat) :
+/-- the limit in force at the delivery -/
+abbrev BCall.lim {R : Type} (c : BCall R) : Nat := c.2.2.2
+
+def runBound (inc : Nat) (encLen : Id → R → Nat) :
     ReqBatch R → List (BCall R) → List (Option (List (Entry R)))
   | _, [] => []
   | b, c :: cs =>
-      let r := sendResult max inc encLen b c.1 c.2.1 c.2.2
-      r.2 :: runBound max inc encLen r.1 cs
+      let r := sendResult inc encLen b c.1 c.2.1 c.2.2.1 c.2.2.2
+      r.2 :: runBound inc encLen r.1 cs
 
-/-- the entries produced by a sequence of `send_result` calls starting from running size `s` -/
-def entriesFrom (max inc : Nat) (encLen : Id → R → Nat) : Nat → List (BCall R) → List (Entry R)
+/-- the entries produced by a sequence of `send_result` calls starting from running size `s`;
+    each call is judged with the cumulative size and **its own** limit -/
+def entriesFrom (inc : Nat) (encLen : Id → R → Nat) : Nat → List (BCall R) → List (Entry R)
   | _, [] => []
   | s, c :: cs =>
-      let s' := s + encLen c.2.1 c.2.2 + inc
-      (if s' > max && max > 0 then Entry.big c.1 c.2.1 else Entry.res c.1 c.2.1 c.2.2)
-        :: entriesFrom max inc encLen s' cs
+      let s' := s + encLen c.2.1 c.2.2.1 + inc
+      (if s' > c.2.2.2 && c.2.2.2 > 0 then Entry.big c.1 c.2.1 else Entry.res c.1 c.2.1 c.2.2.1)
+        :: entriesFrom inc encLen s' cs
 
-/-- the running size after the calls `cs` -/
+/-- the running size after the calls `cs` (it does not depend on the limits) -/
 def sizeAfter (inc : Nat) (encLen : Id → R → Nat) (s : Nat) (cs : List (BCall R)) : Nat :=
-  s + (cs.map fun c => encLen c.2.1 c.2.2 + inc).sum
+  s + (cs.map fun c => encLen c.2.1 c.2.2.1 + inc).sum
 
 theorem scan_spec (i : Nat) (ms : List Mem) :
     (scan (R := R) i ms).2.1 = errEntries i ms ∧
@@ -48,15 +53,15 @@ theorem scan_spec (i : Nat) (ms : List Mem) :
       refine ⟨by simp [scan, errEntries, h1], by simp [scan, errEntries, reqMembers, h2]; omega, ?_⟩
       simpa [scan, reqMembers, notifCount] using h3
 
-theorem length_entriesFrom (max inc : Nat) (encLen : Id → R → Nat) (s : Nat) (cs : List (BCall R)) :
-    (entriesFrom max inc encLen s cs).length = cs.length := by
+theorem length_entriesFrom (inc : Nat) (encLen : Id → R → Nat) (s : Nat) (cs : List (BCall R)) :
+    (entriesFrom inc encLen s cs).length = cs.length := by
   induction cs generalizing s with
   | nil => rfl
   | cons c cs ih => simp [entriesFrom, ih]
 
 /-- entry `j` answers the `j`-th call: same member, same id -/
-theorem entriesFrom_keys (max inc : Nat) (encLen : Id → R → Nat) (s : Nat) (cs : List (BCall R)) :
-    (entriesFrom max inc encLen s cs).map (fun e => (e.member, e.id)) =
+theorem entriesFrom_keys (inc : Nat) (encLen : Id → R → Nat) (s : Nat) (cs : List (BCall R)) :
+    (entriesFrom inc encLen s cs).map (fun e => (e.member, e.id)) =
       cs.map (fun c => (c.1, c.2.1)) := by
   induction cs generalizing s with
   | nil => rfl
@@ -64,61 +69,71 @@ theorem entriesFrom_keys (max inc : Nat) (encLen : Id → R → Nat) (s : Nat) (
     simp only [entriesFrom, map_cons, ih]
     split <;> rfl
 
+/-- the entries of the first `n` calls are the first `n` entries -/
+theorem entriesFrom_take (inc : Nat) (encLen : Id → R → Nat) :
+    ∀ (cs : List (BCall R)) (s n : Nat),
+      (entriesFrom inc encLen s cs).take n = entriesFrom inc encLen s (cs.take n)
+  | [], _, n => by simp [entriesFrom]
+  | _ :: _, _, 0 => by simp [entriesFrom]
+  | c :: cs, s, n + 1 => by
+    simp only [entriesFrom, take_succ_cons, entriesFrom_take inc encLen cs _ n]
+
 /-- before the last call nothing is returned; the last call returns everything -/
-theorem runBound_complete (max inc : Nat) (encLen : Id → R → Nat) :
+theorem runBound_complete (inc : Nat) (encLen : Id → R → Nat) :
     ∀ (cs : List (BCall R)) (b : ReqBatch R), cs ≠ [] → b.parts.length + cs.length = b.count →
-      runBound max inc encLen b cs =
-        replicate (cs.length - 1) none ++ [some (b.parts ++ entriesFrom max inc encLen b.size cs)]
+      runBound inc encLen b cs =
+        replicate (cs.length - 1) none ++ [some (b.parts ++ entriesFrom inc encLen b.size cs)]
   | [], _, h, _ => absurd rfl h
   | [c], b, _, hc => by
     simp only [runBound, sendResult, entriesFrom, length_append, length_cons, length_nil]
     simp only [length_cons, length_nil] at hc
     simp [hc]
   | c :: c' :: rest, b, _, hc => by
-    have ih := runBound_complete max inc encLen (c' :: rest)
-      (sendResult max inc encLen b c.1 c.2.1 c.2.2).1 (by simp)
+    have ih := runBound_complete inc encLen (c' :: rest)
+      (sendResult inc encLen b c.1 c.2.1 c.2.2.1 c.2.2.2).1 (by simp)
       (by simp only [sendResult, length_append, length_cons, length_nil] at hc ⊢; omega)
     rw [runBound, ih]
     simp only [length_cons] at hc
-    have hne : ((b.parts ++ [if (b.size + encLen c.2.1 c.2.2 + inc > max && max > 0) = true
-        then Entry.big c.1 c.2.1 else Entry.res c.1 c.2.1 c.2.2]).length == b.count) = false := by
+    have hne : ((b.parts ++ [if (b.size + encLen c.2.1 c.2.2.1 + inc > c.2.2.2 && c.2.2.2 > 0) = true
+        then Entry.big c.1 c.2.1 else Entry.res c.1 c.2.1 c.2.2.1]).length == b.count) = false := by
       simp only [length_append, length_cons, length_nil, beq_eq_false_iff_ne]; omega
     simp only [sendResult, hne, length_cons, Bool.false_eq_true, ↓reduceIte]
     simp only [entriesFrom, append_assoc, cons_append, nil_append]
     rfl
 
 /-- as long as some request member has not supplied its result, nothing is returned -/
-theorem runBound_incomplete (max inc : Nat) (encLen : Id → R → Nat) :
+theorem runBound_incomplete (inc : Nat) (encLen : Id → R → Nat) :
     ∀ (cs : List (BCall R)) (b : ReqBatch R), b.parts.length + cs.length < b.count →
-      runBound max inc encLen b cs = replicate cs.length none
+      runBound inc encLen b cs = replicate cs.length none
   | [], _, _ => rfl
   | c :: cs, b, hc => by
-    have ih := runBound_incomplete max inc encLen cs (sendResult max inc encLen b c.1 c.2.1 c.2.2).1
+    have ih := runBound_incomplete inc encLen cs (sendResult inc encLen b c.1 c.2.1 c.2.2.1 c.2.2.2).1
       (by simp only [sendResult, length_append, length_cons, length_nil] at hc ⊢; omega)
     rw [runBound, ih]
     simp only [length_cons] at hc
-    have hne : ((b.parts ++ [if (b.size + encLen c.2.1 c.2.2 + inc > max && max > 0) = true
-        then Entry.big c.1 c.2.1 else Entry.res c.1 c.2.1 c.2.2]).length == b.count) = false := by
+    have hne : ((b.parts ++ [if (b.size + encLen c.2.1 c.2.2.1 + inc > c.2.2.2 && c.2.2.2 > 0) = true
+        then Entry.big c.1 c.2.1 else Entry.res c.1 c.2.1 c.2.2.1]).length == b.count) = false := by
       simp only [length_append, length_cons, length_nil, beq_eq_false_iff_ne]; omega
     simp only [sendResult, hne, length_cons, replicate_succ, Bool.false_eq_true, ↓reduceIte]
 
-/-- entry `j` is the real result exactly while the running size stays within the limit -/
-theorem entriesFrom_real (max inc : Nat) (encLen : Id → R → Nat) :
-    ∀ (cs : List (BCall R)) (s j : Nat) (hj : j < (entriesFrom max inc encLen s cs).length),
-      ((entriesFrom max inc encLen s cs)[j]).isReal =
-        (max == 0 || decide (sizeAfter inc encLen s (cs.take (j + 1)) ≤ max))
-  | [], _, _, hj => by simp [entriesFrom] at hj
+/-- entry `j` is the real result exactly when the running size **after delivery `j`** is within
+    the limit in force **at delivery `j`** (or that limit is 0) -/
+theorem entriesFrom_real (inc : Nat) (encLen : Id → R → Nat) :
+    ∀ (cs : List (BCall R)) (s j : Nat) (hj : j < cs.length),
+      ((entriesFrom inc encLen s cs)[j]'(by rw [length_entriesFrom]; exact hj)).isReal =
+        ((cs[j]).lim == 0 || decide (sizeAfter inc encLen s (cs.take (j + 1)) ≤ (cs[j]).lim))
+  | [], _, _, hj => by simp at hj
   | c :: cs, s, 0, _ => by
     simp only [entriesFrom, getElem_cons_zero, sizeAfter, take_succ_cons, take_zero, map_cons,
-      map_nil, sum_cons, sum_nil]
-    by_cases h1 : max = 0
-    · subst h1; simp [Entry.isReal]
-    · by_cases h2 : s + encLen c.2.1 c.2.2 + inc > max
+      map_nil, sum_cons, sum_nil, BCall.lim]
+    by_cases h1 : c.2.2.2 = 0
+    · simp [h1, Entry.isReal]
+    · by_cases h2 : s + encLen c.2.1 c.2.2.1 + inc > c.2.2.2
       · simp [h2, h1, Nat.pos_of_ne_zero h1, Entry.isReal]; omega
       · simp [h2, h1, Entry.isReal]; omega
   | c :: cs, s, j + 1, hj => by
-    have ih := entriesFrom_real max inc encLen cs (s + encLen c.2.1 c.2.2 + inc) j
-      (by simpa [entriesFrom] using hj)
+    have ih := entriesFrom_real inc encLen cs (s + encLen c.2.1 c.2.2.1 + inc) j
+      (by simpa using hj)
     simp only [entriesFrom, getElem_cons_succ, ih]
     simp only [sizeAfter, take_succ_cons, map_cons, sum_cons]
     congr 2
@@ -270,16 +285,16 @@ def resolve (its : List Item) : List (Call R) → List (BCall R)
   | [] => []
   | c :: cs =>
       match boundId its c.1 with
-      | some id => (c.1, id, c.2) :: resolve its cs
+      | some id => (c.1, id, c.2.1, c.2.2) :: resolve its cs
       | none => resolve its cs
 
-theorem runCalls_resolved (max inc : Nat) (encLen : Id → R → Nat) (its : List Item) :
+theorem runCalls_resolved (inc : Nat) (encLen : Id → R → Nat) (its : List Item) :
     ∀ (cs : List (Call R)) (b : ReqBatch R), (∀ c ∈ cs, ∃ id, boundId its c.1 = some id) →
-      runCalls max inc encLen its b cs = runBound max inc encLen b (resolve its cs)
+      runCalls inc encLen its b cs = runBound inc encLen b (resolve its cs)
   | [], _, _ => rfl
   | c :: cs, b, h => by
     obtain ⟨id, hid⟩ := h c (by simp)
-    have ih := fun b' => runCalls_resolved max inc encLen its cs b'
+    have ih := fun b' => runCalls_resolved inc encLen its cs b'
       (fun x hx => h x (mem_cons_of_mem _ hx))
     simp only [runCalls, resolve, hid, runBound, ih]
 
@@ -299,45 +314,85 @@ theorem resolve_spec (its : List Item) :
     · exact hid
     · exact d bc hbc
 
-/-! ### the real entries are a prefix; their accounted size is within the limit -/
+/-- resolving does not touch the limits: every resolved delivery carries the limit of a
+    delivery -/
+theorem resolve_lims (its : List Item) (P : Nat → Prop) :
+    ∀ (cs : List (Call R)), (∀ c ∈ cs, P c.2.2) → ∀ bc ∈ resolve its cs, P bc.lim
+  | [], _ => by simp [resolve]
+  | c :: cs, h => by
+    have ih := resolve_lims its P cs (fun x hx => h x (mem_cons_of_mem _ hx))
+    intro bc hbc
+    cases hid : boundId its c.1 with
+    | none => simp only [resolve, hid] at hbc; exact ih bc hbc
+    | some id =>
+      simp only [resolve, hid, mem_cons] at hbc
+      rcases hbc with rfl | hbc
+      · exact h c (by simp)
+      · exact ih bc hbc
+
+/-! ### the real entries and the running size -/
 
 /-- the encoded length of a real result entry (0 for the others) -/
 def resLen (encLen : Id → R → Nat) : Entry R → Nat
   | .res _ id r => encLen id r
   | _ => 0
 
-/-- once the running size is over the limit every later entry is replaced -/
-theorem no_real_after_overflow (max inc : Nat) (encLen : Id → R → Nat) (hmax : 0 < max) :
-    ∀ (l : List (BCall R)) (t : Nat), max < t →
-      (entriesFrom max inc encLen t l).filter Entry.isReal = []
-  | [], _, _ => rfl
-  | d :: l, t, ht => by
-    have h : t + encLen d.2.1 d.2.2 + inc > max := by omega
-    simp only [entriesFrom, h, hmax, decide_true, Bool.and_self, ↓reduceIte]
-    rw [filter_cons_of_neg (by simp [Entry.isReal])]
-    exact no_real_after_overflow max inc encLen hmax l _ h
+/-- whatever the limits: the real entries account for no more than the running size does (the
+    running size also contains the results that were replaced) -/
+theorem real_entries_le_size (inc : Nat) (encLen : Id → R → Nat) :
+    ∀ (cs : List (BCall R)) (s : Nat),
+      s + (((entriesFrom inc encLen s cs).filter Entry.isReal).map
+        fun e => resLen encLen e + inc).sum ≤ sizeAfter inc encLen s cs
+  | [], s => by simp [entriesFrom, sizeAfter]
+  | c :: cs, s => by
+    have ih := real_entries_le_size inc encLen cs (s + encLen c.2.1 c.2.2.1 + inc)
+    simp only [sizeAfter, map_cons, sum_cons] at ih ⊢
+    simp only [entriesFrom]
+    split
+    · rw [filter_cons_of_neg (by simp [Entry.isReal])]
+      omega
+    · rw [filter_cons_of_pos (by simp [Entry.isReal])]
+      simp only [map_cons, sum_cons]
+      have hr : resLen encLen (Entry.res c.1 c.2.1 c.2.2.1) = encLen c.2.1 c.2.2.1 := rfl
+      rw [hr]
+      omega
 
-/-- the accounted size of the real entries among the entries produced from running size `s`
-    never exceeds what the limit leaves -/
+/-- under a **constant** positive limit: once the running size is over the limit every later
+    entry is replaced -/
+theorem no_real_after_overflow (max inc : Nat) (encLen : Id → R → Nat) (hmax : 0 < max) :
+    ∀ (l : List (BCall R)) (t : Nat), (∀ c ∈ l, c.lim = max) → max < t →
+      (entriesFrom inc encLen t l).filter Entry.isReal = []
+  | [], _, _, _ => rfl
+  | d :: l, t, hc, ht => by
+    have hd : d.2.2.2 = max := hc d (by simp)
+    have h : t + encLen d.2.1 d.2.2.1 + inc > max := by omega
+    simp only [entriesFrom, hd, h, hmax, decide_true, Bool.and_self, ↓reduceIte]
+    rw [filter_cons_of_neg (by simp [Entry.isReal])]
+    exact no_real_after_overflow max inc encLen hmax l _ (fun x hx => hc x (mem_cons_of_mem _ hx)) h
+
+/-- under a **constant** positive limit: the accounted size of the real entries among the
+    entries produced from running size `s` never exceeds what the limit leaves -/
 theorem real_entries_accounted (max inc : Nat) (encLen : Id → R → Nat) (hmax : 0 < max) :
-    ∀ (cs : List (BCall R)) (s : Nat), s ≤ max →
-      s + (((entriesFrom max inc encLen s cs).filter Entry.isReal).map
+    ∀ (cs : List (BCall R)) (s : Nat), (∀ c ∈ cs, c.lim = max) → s ≤ max →
+      s + (((entriesFrom inc encLen s cs).filter Entry.isReal).map
         fun e => resLen encLen e + inc).sum ≤ max
-  | [], s, hs => by simpa [entriesFrom] using hs
-  | c :: cs, s, hs => by
-    by_cases h : s + encLen c.2.1 c.2.2 + inc > max
-    · simp only [entriesFrom, h, hmax, decide_true, Bool.and_self, ↓reduceIte]
+  | [], s, _, hs => by simpa [entriesFrom] using hs
+  | c :: cs, s, hc, hs => by
+    have hd : c.2.2.2 = max := hc c (by simp)
+    have hc' : ∀ x ∈ cs, x.lim = max := fun x hx => hc x (mem_cons_of_mem _ hx)
+    by_cases h : s + encLen c.2.1 c.2.2.1 + inc > max
+    · simp only [entriesFrom, hd, h, hmax, decide_true, Bool.and_self, ↓reduceIte]
       rw [filter_cons_of_neg (by simp [Entry.isReal]),
-        no_real_after_overflow max inc encLen hmax cs _ h]
+        no_real_after_overflow max inc encLen hmax cs _ hc' h]
       simpa using hs
-    · have h' : s + encLen c.2.1 c.2.2 + inc ≤ max := by omega
-      have ih := real_entries_accounted max inc encLen hmax cs _ h'
-      have hcond : (decide (s + encLen c.2.1 c.2.2 + inc > max) && decide (max > 0)) = false := by
+    · have h' : s + encLen c.2.1 c.2.2.1 + inc ≤ max := by omega
+      have ih := real_entries_accounted max inc encLen hmax cs _ hc' h'
+      have hcond : (decide (s + encLen c.2.1 c.2.2.1 + inc > max) && decide (max > 0)) = false := by
         simp [h]
-      simp only [entriesFrom, hcond, Bool.false_eq_true, ↓reduceIte]
+      simp only [entriesFrom, hd, hcond, Bool.false_eq_true, ↓reduceIte]
       rw [filter_cons_of_pos (by simp [Entry.isReal])]
       simp only [map_cons, sum_cons]
-      have hr : resLen encLen (Entry.res c.1 c.2.1 c.2.2) = encLen c.2.1 c.2.2 := rfl
+      have hr : resLen encLen (Entry.res c.1 c.2.1 c.2.2.1) = encLen c.2.1 c.2.2.1 := rfl
       rw [hr]
       omega
 
